@@ -35,9 +35,9 @@ type Env struct {
 	Log  *CapLog
 
 	Links    []*simnet.Link
-	LinkPlan func(l *simnet.Link)                 // applied to every new link (fault plan, chunking)
-	OnDial   func(l *simnet.Link)                 // e.g. spawn the server task
-	DialErr  func(n int, addr string) error       // non-nil result makes the n-th dial fail
+	LinkPlan func(l *simnet.Link)                   // applied to every new link (fault plan, chunking)
+	OnDial   func(l *simnet.Link)                   // e.g. spawn the server task
+	DialErr  func(n int, addr string) error         // non-nil result makes the n-th dial fail
 	DialWait func(ctx context.Context, n int) error // may block (simulated) before the dial completes
 	Dials    []string
 	CtxDials int
@@ -147,9 +147,9 @@ func (g G) Range(lo, hi int) int {
 	}
 	return lo + g.S.Plan(hi-lo+1)
 }
-func (g G) Bool() bool           { return g.S.Plan(2) == 1 }
-func (g G) Pct(p int) bool       { return g.S.PlanW(100-p, p) == 1 }
-func (g G) W(w ...int) int       { return g.S.PlanW(w...) }
+func (g G) Bool() bool              { return g.S.Plan(2) == 1 }
+func (g G) Pct(p int) bool          { return g.S.PlanW(100-p, p) == 1 }
+func (g G) W(w ...int) int          { return g.S.PlanW(w...) }
 func (g G) Pick(xs []string) string { return xs[g.S.Plan(len(xs))] }
 
 // Str draws a string of length lo..hi over the alphabet.
